@@ -207,7 +207,7 @@ func walkLexFunc(r *lexRoles, fd *ast.FuncDecl, init *lexState, bind map[types.O
 	if lexUnrollOverride > 0 {
 		w.LoopUnroll = lexUnrollOverride
 	}
-	w.Run(fd.Body, init)
+	w.Run(r.desugar(fd), init)
 	return res, w.Overflow, append(w.Unsupported, unsupportedDefer...), derefViol
 }
 
@@ -1055,12 +1055,13 @@ func scanWalk(r *lexRoles, fd *ast.FuncDecl, entry []charFact) *scanResult {
 	}
 	w = mk()
 	w.Exit = func(st *lexState, o outcome) {}
-	w.Run(fd.Body, init)
+	dsBody := r.desugar(fd)
+	w.Run(dsBody, init)
 	res.paths, res.overflow, res.unsupported = w.Paths, w.Overflow, w.Unsupported
 	// ---- pass B: per-loop iteration analysis (body walked once from a havoc state
 	// that keeps only "cursor is not at end of input" when the loop condition says so)
 	idx := 0
-	ast.Inspect(fd.Body, func(n ast.Node) bool {
+	ast.Inspect(dsBody, func(n ast.Node) bool {
 		fs, ok := n.(*ast.ForStmt)
 		if !ok {
 			return true
